@@ -50,6 +50,7 @@ def run(ctx: Ctx):
     r10_3(ctx)
     r10_4(ctx)
     r10_5(ctx)
+    r10_6(ctx)
 
 
 def _is_reversal(comp: ast.AST) -> bool:
@@ -450,3 +451,106 @@ def r10_5(ctx: Ctx, rule="R10.5"):
     # the loop runs over the parsed restrictions' keys = the complete correspondence
     ctx.ob(rule, f, l, norm(l.iter) in ("restrictions", "mols_corr", "self.complete_correspondence"),
            "one alignment per species with both resolutions attached", node=l)
+
+
+def r10_6(ctx: Ctx, rule="R10.6"):
+    """Per-species option dictionaries are re-keyed faithfully: the value stored for a species comes from the
+    caller's entry for that same species, read only when the entry exists, else the documented default."""
+    specs = (("Manager.parse_restrictions", "restrictions", ("None",)),
+             ("Manager._parse_deformations", None, ("None",)),
+             ("Manager._parse_ignore_hydrogens", None, ("True",)))
+    total = 0
+    for nm, inp_name, defaults in specs:
+        f = ctx.func(nm)
+        inp = inp_name or [p for p in f.params if p != "self"][0]
+        # unknown names are refused: `for n in inp: if n not in <complete correspondence>: raise KeyError`
+        unk = [n_ for n_ in walk_no_nested(f.node) if isinstance(n_, ast.For) and norm(n_.iter) == inp]
+        oku = False
+        for l in unk:
+            v = norm(l.target)
+            for n_ in walk_no_nested(l):
+                if isinstance(n_, ast.If) and branch_raises(n_.body) and isinstance(n_.test, ast.Compare) \
+                        and isinstance(n_.test.ops[0], ast.NotIn) and norm(n_.test.left) == v \
+                        and "complete_correspondence" in norm(n_.test.comparators[0]) \
+                        and any("KeyError" in norm(x) for x in ast.walk(n_) if isinstance(x, ast.Raise)):
+                    oku = True
+        ctx.ob(rule, f, unk[0] if unk else "unknown-name check", oku,
+               "every name in the caller's dictionary must be a species with both resolutions attached, otherwise KeyError",
+               node=unk[0] if unk else f.node)
+        # the re-keying loop
+        loops = [n_ for n_ in walk_no_nested(f.node) if isinstance(n_, ast.For) and "complete_correspondence" in norm(n_.iter)
+                 and any(isinstance(x, ast.Assign) and isinstance(x.targets[0], ast.Subscript) for x in ast.walk(n_))]
+        loops = [l for l in loops if not (isinstance(l.iter, ast.Name) and False)]
+        if not loops:
+            ctx.ob(rule, f, "re-keying loop", True, "loop over the complete correspondence not recognised", undecided=True)
+            continue
+        l = sorted(loops, key=lambda x: x.lineno)[-1]
+        key = norm(l.target)
+        for p in enum_paths(l.body):
+            st = p.stmts()
+            stores = [s_ for s_ in st if isinstance(s_, ast.Assign) and isinstance(s_.targets[0], ast.Subscript)
+                      and norm(s_.targets[0].slice) == key and norm(s_.targets[0].value) != inp]
+            if p.end == "raise":
+                continue
+            total += 1
+            if len(stores) < 1:
+                ctx.ob(rule, f, "path: %s" % p.describe()[:200], False,
+                       "every species gets an entry in the parsed dictionary -- none is stored on this path", node=l)
+                continue
+            stores = stores[-1:]           # the last store on the path is the entry that stays
+            present = None
+            for t, o in p.conds():
+                tt = norm(t).replace(" ", "")
+                if tt == ("%sin%s" % (key, inp)):
+                    present = o
+                elif tt == ("%snotin%s" % (key, inp)):
+                    present = not o
+            val = stores[0].value
+            env = {norm(s_.targets[0]): s_.value for s_ in st if isinstance(s_, ast.Assign) and isinstance(s_.targets[0], ast.Name)}
+            seen = set()
+            srcs = [val]
+            reads_inp = False
+            wrong_key = False
+            while srcs:
+                e = srcs.pop()
+                for n_ in ast.walk(e):
+                    if isinstance(n_, ast.Subscript) and norm(n_.value) == inp:
+                        reads_inp = True
+                        if norm(n_.slice) != key:
+                            wrong_key = True
+                    if isinstance(n_, ast.Name) and n_.id in env and n_.id not in seen:
+                        seen.add(n_.id)
+                        srcs.append(env[n_.id])
+            guessed = any("guess_protein_restrains" in norm(x) for x in srcs + [val] + [env[k] for k in seen])
+            is_default = norm(val) in defaults
+            if guessed:
+                ok, why = True, "guessed restraints"
+            elif reads_inp:
+                ok = present is True and not wrong_key
+                why = "" if ok else ("the caller's entry is read %s" % ("under another key" if wrong_key else
+                                                                      "on a path where the species is not known to be in the dictionary"))
+            else:
+                ok = is_default
+                why = "" if ok else "the value stored is neither the caller's entry nor the default %s" % (defaults,)
+                if ok and present is True:
+                    # present but stored default: only allowed when the entry is empty/falsy
+                    falsy = any(isinstance(t, ast.UnaryOp) and isinstance(t.op, ast.Not) and o for t, o in p.conds())
+                    ok = falsy
+                    why = "" if ok else "the caller gave an entry for this species but the default is stored"
+            ctx.ob(rule, f, "path [%s] stores %s[%s] = %s" % (", ".join(("" if o else "not ") + norm(t) for t, o in p.conds()),
+                                                             norm(stores[0].targets[0].value), key, norm(val)), ok,
+                   "the parsed entry of a species is the caller's entry for that species when there is one, the default otherwise"
+                   + ("" if ok else " -- " + why), node=stores[0])
+    ctx.floor(rule, total, 8, "re-keying paths")
+    # index validation: component 0 indexes the start molecule, component 1 the end molecule
+    vi = ctx.func("Manager._validate_index")
+    txt = ast.unparse(vi.node)
+    okv = "mol_start[tup[0]]" in txt and "mol_end[tup[1]]" in txt
+    lens = [n_ for n_ in walk_no_nested(vi.node) if isinstance(n_, ast.If) and "len(tup) != 2" in norm(n_.test) and branch_raises(n_.body)
+            and not isinstance(n_.test, ast.UnaryOp)]
+    ctx.ob(rule, vi, "index validation", okv and bool(lens),
+           "each pair must have two components; the first is checked against the start molecule, the second against the end molecule",
+           node=vi.node)
+    hs = [h for h in ast.walk(vi.node) if isinstance(h, ast.ExceptHandler)]
+    okh = len(hs) >= 2 and all(norm(h.type) == "IndexError" and branch_raises(h.body) and "ValueError" in ast.unparse(h) for h in hs)
+    ctx.ob(rule, vi, "out-of-range indices", okh, "an index outside a molecule is reported as ValueError", node=vi.node)
